@@ -93,10 +93,10 @@ func (r *Runner) flushDrift() {
 	driftBatch = driftBatch[:0]
 }
 
-var runners = map[string]func(*Runner) string{
-	"C01": runC01,
-	"C02": runC02,
-}
+var runners = map[string]func(*Runner) string{}
+
+// regRunner registers the case generator of a property (called from init functions).
+func regRunner(prop string, f func(*Runner) string) { runners[prop] = f }
 
 func main() {
 	prop := flag.String("prop", "", "property id (C01 …)")
